@@ -71,6 +71,7 @@ def run(prog: Program, rep: Report, tier: str) -> None:
     discriminators(rep, prog)
     index_checks(rep, prog)
     ordered_fields(rep, prog)
+    optional_fields(rep, prog)
     constructor_arguments(rep, prog)
     persist_id(rep, prog)
     dense_interface(rep, prog)
@@ -186,6 +187,43 @@ def ordered_fields(rep: Report, prog: Program) -> None:
         rep.ob(rule, f.fq(), f"'{key}': {norm(v)[:70]}", f.loc(v), why is None,
                f"written position by position in the order of {src}" if why is None else why + ': position i no longer is argument i')
     rep.floor('C14-D1 ordered fields', len(sites), 2)
+
+
+def optional_fields(rep: Report, prog: Program) -> None:
+    """A field read with `.get(key)` (no default) may be absent: the statement that iterates over / converts its value runs
+    exactly when the value is present (is not None / is truthy), never when it is None."""
+    rule = 'C14-D1 optional-fields'
+    n = 0
+    for fn in ('json_to_weights', 'json_to_hrg', 'json_to_fgg'):
+        f = prog.func(FM, fn)
+        cfg = cfg_of(f)
+        for k, nd in cfg.nodes.items():
+            st = nd.stmt
+            if nd.kind != 'stmt' or not isinstance(st, ast.Assign) or len(st.targets) != 1 or not isinstance(st.targets[0], ast.Name):
+                continue
+            v = st.value
+            if not (isinstance(v, ast.Call) and callee_last(v) == 'get' and len(v.args) == 1 and isinstance(v.args[0], ast.Constant)):
+                continue
+            X = st.targets[0].id
+            # consumers: statements that iterate over X or unpack it (comprehension / for / star) after this binding
+            cons = []
+            for m, md in cfg.nodes.items():
+                e = md.stmt if md.kind in ('stmt', 'return') else md.stmt.iter if md.kind == 'for' else None
+                if e is None or m == k or not cfg.reaches(k, m):
+                    continue
+                it = [c.iter for c in ast.walk(e) if isinstance(c, ast.comprehension)] + [s_.value for s_ in ast.walk(e) if isinstance(s_, ast.Starred)] + \
+                     ([md.stmt.iter] if md.kind == 'for' else [])
+                if any(isinstance(i_, ast.Name) and i_.id == X for i_ in it):
+                    cons.append(m)
+            for m in cons:
+                n += 1
+                r_none = walk(cfg, k, Env(atoms={f"{X} is None": True, X: False}), unknown='both')
+                r_some = walk(cfg, k, Env(atoms={f"{X} is None": False, X: True}), unknown='both')
+                ok = m not in r_none and m in r_some
+                rep.ob(rule, f.fq(), f"{cfg.describe(m).split(': ', 1)[-1][:70]} runs iff {norm(v)} is present", f.loc(cfg.nodes[m].stmt), ok,
+                       'skipped for an absent field, executed for a present one' if ok else
+                       ('the value is iterated although the field is absent (None)' if m in r_none else 'a present field is never converted'))
+    rep.floor('C14-D1 optional fields', n, 2)
 
 
 def index_checks(rep: Report, prog: Program) -> None:
